@@ -7,7 +7,7 @@ From RaftLog Require Import Base.Bytes Model.Types Model.Cache Model.Core Model.
 From RaftLog Require Import Spec.Durable.
 From RaftLog Require Import Spec.Spec Spec.Hist.
 From RaftLog Require Proofs.Refine Proofs.CrashSteps Proofs.CrashPrefix Proofs.CrashFacts Proofs.PurgeLive.
-From RaftLog Require Proofs.PurgeFacts Proofs.PurgeDrain Proofs.RestartSys Proofs.DropReopen.
+From RaftLog Require Proofs.PurgeFacts Proofs.PurgeDrain Proofs.RestartSys Proofs.DropReopen Proofs.RestartChain.
 Import ListNotations.
 
 (* once the dropped store's worker has finished, no event of that instance changes the directory *)
@@ -80,9 +80,57 @@ Theorem C14_drain_terminates_from : forall cfg d z,
   exists es z' vis, forallb ev_fault_free es = true /\ zrun z es = Some (z', vis) /\ worker_idle2 z'.
 Proof. exact RestartSys.C14_drain_terminates_from. Qed.
 
+(* ---- the contracts CHAIN across incarnations.  The directory a cleanly ended instance
+   leaves (worker alive and idle, tracking only the newest file: what a final flush gives)
+   satisfies the hypotheses of the *_from theorems, so the next instance started on it
+   satisfies the durability / ordering contracts, whatever it does *)
+Theorem C14_next_instance_contracts : forall cfg cfg' z1 z2,
+  zreach_ff cfg z1 -> worker_idle2 z1 -> length (w_files (z_w z1)) = 1%nat ->
+  RestartSys.zreach_from cfg' (z_disk z1) z2 ->
+  acked_durable z2 /\ removed_after_durable z2 /\ files_contiguous z2 /\ acks_in_order z2 /\
+  Forall (fun f => (f_synced f <= N.of_nat (length (f_data f)))%N) (z_disk z2).
+Proof. exact RestartChain.C14_next_instance_contracts. Qed.
+
+(* ... for ANY number of incarnations, each started by opening what the previous one left
+   ([chain d l zl]: the instances of l run one after the other from directory d, each but the
+   last ending cleanly; zl is any state of the last one) *)
+Theorem C14_incarnations_contracts : forall l zl,
+  RestartChain.chain [] l zl -> RestartChain.contracts zl.
+Proof. exact RestartChain.C14_incarnations_contracts. Qed.
+
+(* the next instance does start (C14_reopen_after_drop), and then satisfies the contracts *)
+Theorem C14_next_instance_starts : forall cfg cfg' z1,
+  zreach_ff cfg z1 -> CrashSteps.hist_wf z1 -> PurgeLive.hist_legal z1 ->
+  z_dropped z1 = true -> worker_idle2 z1 -> c_truncate cfg' = true ->
+  exists z0, zinit cfg' (z_disk z1) = Some z0 /\ RestartSys.zreach_from cfg' (z_disk z1) z0 /\
+    (length (w_files (z_w z1)) = 1%nat ->
+     forall z2, RestartSys.zreach_from cfg' (z_disk z1) z2 -> RestartChain.contracts z2).
+Proof. exact RestartChain.C14_next_instance_starts. Qed.
+
+(* the side condition "tracks only the newest file" is not automatic: after a rotation that
+   is not followed by a flush an idle fault-free worker tracks two files (witness) *)
+Theorem C14_idle_worker_may_track_two_files : exists z,
+  zreach_ff RestartChain.w2_cfg z /\ z_dropped z = true /\ worker_idle2 z /\
+  map wf_id (w_files (z_w z)) = [0; 50]%N /\ RestartSys.older_synced (z_disk z).
+Proof. exact RestartChain.ff_idle_two_files. Qed.
+
+(* non-vacuity: two incarnations (rotations, flush, drop, drain; reopen under other limits,
+   acknowledged flush, purge, unlink) *)
+Theorem C14_two_incarnations : exists zl,
+  RestartChain.chain [] [(RestartChain.d2_cfg1, RestartChain.d2_events1); (RestartChain.d2_cfg2, RestartChain.d2_events2)] zl /\
+  forallb ev_fault_free (RestartChain.d2_events1 ++ RestartChain.d2_events2) = true /\
+  In (0%N, true) (z_acks zl) /\ disk_get 0%N (z_disk zl) = None.
+Proof.
+  destruct RestartChain.two_incarnations as (zl & H1 & H2 & _ & _ & _ & _ & _ & _ & H3 & _ & H4 & _).
+  exists zl. repeat split; assumption.
+Qed.
+
 Print Assumptions C14_quiescent.
 Print Assumptions C14_drain_terminates.
 Print Assumptions C14_reopen_after_drop.
 Print Assumptions C14_reopen_after_drop_no_truncate.
 Print Assumptions C14_quiescent_from.
 Print Assumptions C14_drain_terminates_from.
+Print Assumptions C14_next_instance_contracts.
+Print Assumptions C14_incarnations_contracts.
+Print Assumptions C14_two_incarnations.
